@@ -1,8 +1,9 @@
 #!/bin/sh
-# fixed: property=C34 R-SCNINDEX (3), R-ELFNULL std::string from a null elf_strptr() (3), R-LINKWALK (1)
+# fixed: property=C34 R-SCNINDEX (3), R-ELFNULL std::string from a null elf_strptr() (3), R-LINKWALK (1), R-INASSERT gnu-hash gelf_getsym (1)
 # One-word corruptions of valid shared libraries, each of which made abisym / abidw / abidiff abort or hang before the repairs:
 #   .hash / .gnu.hash / .dynamic sh_link = 200      elf_getscn() returns null, ABG_ASSERT on it                  SIGABRT
 #   DT_SONAME d_val, vda_name, vna_name out of the string table   std::string built from elf_strptr()'s null    std::logic_error
+#   .dynsym sh_size larger than the file              elf_getdata() fails, ABG_ASSERT(gelf_getsym(...)) in the GNU hash walk   SIGABRT
 #   .hash chain[i] = i                                the chain walk never reads STN_UNDEF                       hang
 # exit 0 = every tool run terminates with a normal exit status, 1 = one died by signal or timed out.
 H=$(cd "$(dirname "$0")" && pwd)
@@ -32,6 +33,7 @@ $P gnu.so dyn-link.so link .dynamic 200
 $P gnu.so dyn-val.so dynstr
 $P ver.so vda.so vda
 $P need.so vna.so vna
+$P gnu.so dynsym-big.so shsize .dynsym 0x10000000
 bad=0
 run() {
   timeout 30 $T/"$@" > out.txt 2>&1; rc=$?
@@ -49,5 +51,6 @@ run abidiff dyn-val.so gnu.so
 run abidw vda.so
 run abisym vda.so foo
 run abidw vna.so
+run abisym dynsym-big.so foo
 run abidiff vna.so need.so
 exit $bad
